@@ -102,14 +102,15 @@ impl AnonymizePlugin {
             let mut args = msg.into_iter();
             let message_id_arg = args.next();
             let message_id = match message_id_arg {
-                Some(a) => {
+                // a verbose control response can carry a first argument shorter than a message id
+                Some(a) if a.payload_raw.len() >= 4 => {
                     if a.is_big_endian {
                         u32::from_be_bytes(a.payload_raw.get(0..4).unwrap().try_into().unwrap())
                     } else {
                         u32::from_le_bytes(a.payload_raw.get(0..4).unwrap().try_into().unwrap())
                     }
                 }
-                None => 0,
+                _ => 0,
             };
             match message_id {
                 SERVICE_ID_GET_SOFTWARE_VERSION => {
